@@ -7,9 +7,9 @@ def unsafePolicy : List (String × String) := [("paseto-core", "deny"), ("paseto
 /-- files that re-allow `unsafe_code` -/
 def unsafeAllowed : List String := ["paseto-core/src/base64.rs", "paseto-v3-aws-lc/src/lc/mod.rs"]
 /-- files in which the keyword `unsafe` occurs, with the number of occurrences -/
-def unsafeFiles : List (String × Nat) := [("paseto-core/src/base64.rs", 1), ("paseto-v3-aws-lc/src/lc/mod.rs", 54), ("paseto-v3-aws-lc/src/lc/ptr.rs", 4)]
+def unsafeFiles : List (String × Nat) := [("paseto-core/src/base64.rs", 2), ("paseto-v3-aws-lc/src/lc/mod.rs", 54), ("paseto-v3-aws-lc/src/lc/ptr.rs", 4)]
 /-- (file, construct): interior mutability, `static mut`, thread locals, lazily initialised globals, locks, atomics -/
 def sharedState : List (String × String) := []
 /-- (file, function called inside an `unsafe { }` block), outside the aws-lc wrapper module (which `ffiscan` translates) -/
-def unsafeCalls : List (String × String) := [("paseto-core/src/base64.rs", "from_utf8_unchecked")]
+def unsafeCalls : List (String × String) := [("paseto-core/src/base64.rs", "from_utf8_unchecked"), ("paseto-core/src/base64.rs", "from_utf8_unchecked")]
 end PM.Extracted.Source
